@@ -118,6 +118,7 @@ func e2eUp4FaultWorker(args []string) error {
 	// request IS the establishment); fault = nil measures the number of Write RPCs the request makes
 	do := func(shape int64, kd kind, fault *e2e.P4FaultPlan) int {
 		g.Reseed(shape)
+		g.FreshGnbs() // the target session is the only user of its tunnel peer (the crowd uses other gNBs)
 
 		if kd.mod == -1 {
 			w.P4Fault = fault
